@@ -12,17 +12,26 @@ GenMin   == IF "GENMIN" \in DOMAIN IOEnv THEN atoi(IOEnv.GENMIN) ELSE 0
 
 \* compact form of an expectation: kind letter (f r n x), id, ct, then the alternative when there is one
 Letter(k) == IF k = "file" THEN "f" ELSE IF k = "redirect" THEN "r" ELSE IF k = "notfound" THEN "n" ELSE "x"
+DCode(dm) == <<dm.k, dm.id, dm.x>>                       \* a demand of the statement (StaticFs 3e)
 Code(e) == IF e.ak = "none" THEN <<Letter(e.k), e.id, e.ct>> ELSE <<Letter(e.k), e.id, e.ct, Letter(e.ak), e.aid, e.act>>
+\* for the harness's judge: every extension of the table with the media types accepted for it
+Accepted == [i \in 1..Len(MimeTable) |-> <<MimeTable[i][1], AcceptedTypes(MimeTable[i][1])>>]
 GenInit == path = IF GenFirst = 0 THEN <<>> ELSE <<GenFirst>>
 GenNext == Extend
 GenLine ==
   LET rel == Rel(path)
       ed == ExpectDecodingPrep(rel)
       el == ExpectLiteralPrep(rel)
-      xp == FilePathPrepD({"FilePathNoCheck"}, <<SLASH>> \o rel) IN
+      xp == FilePathPrepD({"FilePathNoCheck"}, <<SLASH>> \o rel)
+      pd == DemandDecodingPrep(rel)
+      ps == IF rel # <<>> /\ rel[1] # SLASH THEN pd ELSE DemandDecodingSPrep(rel)
+      pl == DemandLiteralPrep(rel) IN
   [ r |-> rel,
     d |-> [wi \in WorldIx |-> Code(ExpectDecodingOn(Worlds[wi], ed))],
     f |-> [wi \in WorldIx |-> Code(ExpectLiteralOn(Worlds[wi], el))],
+    jd |-> [wi \in WorldIx |-> DCode(DemandOn(Worlds[wi], pd))],
+    js |-> [wi \in WorldIx |-> DCode(DemandOn(Worlds[wi], ps))],      \* under a prefix that does not end in a slash
+    jf |-> [wi \in WorldIx |-> DCode(DemandLiteralOn(Worlds[wi], pl))],
     \* what serve_as_file_path answers without its check (deviation FilePathNoCheck): status and content id
     x |-> [wi \in WorldIx |-> LET a == HandleOnD({"FilePathNoCheck"}, "file_path", Worlds[wi], xp, <<SLASH>> \o rel) IN <<a.st, a.id>>] ]
 GenInv == Len(path) >= GenMin => PrintT(ToJson(GenLine))
@@ -35,22 +44,32 @@ DeepInv ==
       lp == FilePathPrepD(Dev, <<SLASH>> \o rel)
       ed == ExpectDecodingPrep(rel)
       el == ExpectLiteralPrep(rel)
+      pd == DemandDecodingPrep(rel)
+      ps == IF rel # <<>> /\ rel[1] # SLASH THEN pd ELSE DemandDecodingSPrep(rel)
+      pl == DemandLiteralPrep(rel)
       per == [wi \in WorldIx |-> [loc |-> TryFindOnD(Dev, Worlds[wi], fp),
                                   xd  |-> ExpectDecodingOn(Worlds[wi], ed),
-                                  xl  |-> ExpectLiteralOn(Worlds[wi], el)]]
+                                  xl  |-> ExpectLiteralOn(Worlds[wi], el),
+                                  dd  |-> DemandOn(Worlds[wi], pd),
+                                  ds  |-> DemandOn(Worlds[wi], ps),
+                                  dl  |-> DemandLiteralOn(Worlds[wi], pl)]]
   IN
   /\ \A wi \in WorldIx : \A tg \in Targets :
         LET a == AnswerAt(Worlds[wi], tg, rel, per[wi].loc, lp) IN
         /\ ConfinedAnswer(Worlds[wi], a)
         /\ Conforms(IF tg[1] = "file_path" THEN per[wi].xl ELSE per[wi].xd, UriFor(tg[1], tg[2], rel), a)
+        /\ JudgeOk(IF tg[1] = "file_path" THEN per[wi].dl ELSE IF Slashless(tg[2]) THEN per[wi].ds ELSE per[wi].dd, UriFor(tg[1], tg[2], rel), <<>>, a)
   /\ Len(path) >= GenMin =>
         \* p = the catalogue indices (the harness joins the spellings printed in the header line)
         PrintT(ToJson([ p |-> path,
                         d |-> [wi \in WorldIx |-> Code(per[wi].xd)],
-                        f |-> [wi \in WorldIx |-> Code(per[wi].xl)] ]))
+                        f |-> [wi \in WorldIx |-> Code(per[wi].xl)],
+                        jd |-> [wi \in WorldIx |-> DCode(per[wi].dd)],
+                        js |-> [wi \in WorldIx |-> DCode(per[wi].ds)],
+                        jf |-> [wi \in WorldIx |-> DCode(per[wi].dl)] ]))
 
 WorldLine(wi) == [world |-> wi, root |-> Worlds[wi].root, nodes |-> Worlds[wi].nodes]
-GenWorlds == path = <<>> => /\ PrintT(ToJson([routes |-> RouteList, nostar |-> STATIC_NOSTAR, cat |-> Catalogue, sizes |-> SizeOf]))
+GenWorlds == path = <<>> => /\ PrintT(ToJson([routes |-> RouteList, nostar |-> STATIC_NOSTAR, cat |-> Catalogue, sizes |-> SizeOf, accepted |-> Accepted]))
                             /\ \A wi \in WorldIx : PrintT(ToJson(WorldLine(wi)))
 
 \* ---- the sweep of W4 (names, escapes, sizes, prefix-like directories).  Here the state variable `path` holds the
@@ -71,7 +90,9 @@ ExtraSweep == { <<>>, N("/"), N("static"), N("static/static"), N("staticstatic")
                 N("u/%C2%A0a.txt%20"), N("u/%20%C2%A0a.txt"), N("u/a%C2%A0"), N("u/a"), N("u/%E3%80%80"), N("x/x.HTML.TXT"), N("x/X.HTML.TXT"), N("B/a"), N("z/BIG.BIN") }
 \* `%+1`: Rust's from_str_radix accepts a sign; the property (and C18) say an escape is two hex digits.  Left out of the
 \* sweep when the code under test is known to differ there would hide nothing here: it is malformed, hence refused.
-SweepSet == EscapeSweep \cup NodeSweep \cup ExtraSweep
+\* the same spellings behind one slash: how they are requested under a prefix that does not end in a slash (`/dü*`)
+SlashSweep == {<<SLASH>> \o x : x \in NodeSweep}
+SweepSet == EscapeSweep \cup NodeSweep \cup SlashSweep \cup ExtraSweep
 SweepWorlds == <<W4>>
 SweepInit == path \in SweepSet
 SweepNext == FALSE /\ UNCHANGED path
@@ -85,6 +106,9 @@ SweepInv ==
       loc == TryFindOnD(Dev, W4, fp)
       xd == ExpectDecodingOn(W4, ed)
       xl == ExpectLiteralOn(W4, el)
+      dd == DemandDecoding(W4, rel)
+      ds == DemandDecodingS(W4, rel)
+      dl == DemandLiteral(W4, rel)
   IN
   /\ PrefixRuleAt(rel)
   /\ GuardSoundAt(SweepWorlds, rel)
@@ -93,16 +117,18 @@ SweepInv ==
         LET a == AnswerAt(W4, tg, rel, loc, lp) IN
         /\ ConfinedAnswer(W4, a)
         /\ Conforms(IF tg[1] = "file_path" THEN xl ELSE xd, UriFor(tg[1], tg[2], rel), a)
+        /\ JudgeOk(IF tg[1] = "file_path" THEN dl ELSE IF Slashless(tg[2]) THEN ds ELSE dd, UriFor(tg[1], tg[2], rel), <<>>, a)
   /\ (rel = SweepFirst) =>                                    \* once: the world itself
         /\ WorldOk(W4) /\ PositiveHalf(W4) /\ RedirectIndexRule(W4) /\ NoWildcardRule(W4)
-        /\ PrintT(ToJson([routes |-> RouteList, nostar |-> STATIC_NOSTAR, cat |-> <<>>, sizes |-> SizeOf]))
+        /\ PrintT(ToJson([routes |-> RouteList, nostar |-> STATIC_NOSTAR, cat |-> <<>>, sizes |-> SizeOf, accepted |-> Accepted]))
         /\ PrintT(ToJson([world |-> 4, root |-> W4.root, nodes |-> W4.nodes]))
-  /\ PrintT(ToJson([ r |-> rel, d |-> <<Code(xd)>>, f |-> <<Code(xl)>> ]))
+  /\ PrintT(ToJson([ r |-> rel, d |-> <<Code(xd)>>, f |-> <<Code(xl)>>, jd |-> <<DCode(dd)>>, js |-> <<DCode(ds)>>, jf |-> <<DCode(dl)>> ]))
 \* the same properties, named, for the must-violate configurations
 SweepPositive  == (path = SweepFirst) => PositiveHalf(W4)
 SweepPrefix    == PrefixRuleAt(path)
 SweepConfined  == ConfinementAt(SweepWorlds, path)
 SweepConforms  == ModelConformsAt(SweepWorlds, path)
+SweepJudged    == ModelJudgedAt(SweepWorlds, path)
 
 \* data checks evaluated once at start-up
 ASSUME B("a/~") = <<97, 47, 126>> /\ B(" \\\"") = <<32, 92, 34>> /\ Len(Printable) = 95
